@@ -451,7 +451,13 @@ def T_tasks(ctx, server):
     roles, d = flow.closure_roles(b)
     fm = [r for r in roles.values() if r.adaptor == "filter_map"]
     ok = len(fm) == 1 and match(fm[0].receiver, C("iter", P(2))) is not None
-    ctx.ob(rule, "chain", ok, where=b.where(), expected="tasks.iter().filter_map(..)", found=[flow.show(r.receiver)[:100] for r in roles.values()])
+    if not fm:
+        # the same selection as tasks.iter().filter(pred).map(|t| t.task): the table is the predicate's
+        fl = [r for r in roles.values() if r.adaptor == "filter" and match(r.receiver, C("iter", P(2))) is not None]
+        mp = [r for r in roles.values() if r.adaptor == "map" and match(r.receiver, C("filter", C("iter", P(2)), ANY)) is not None]
+        if len(fl) == 1 and len(mp) == 1:
+            fm, ok = fl, True
+    ctx.ob(rule, "chain", ok, where=b.where(), expected="tasks.iter().filter_map(..) or .filter(..).map(..)", found=[flow.show(r.receiver)[:100] for r in roles.values()])
     if not fm:
         return
     cb = server.body(fm[0].closure_def)
@@ -484,13 +490,19 @@ def T_tasks(ctx, server):
                         return [(st_, symx.vbool(vals[0][1] == vals[1][1]))]
                 return NotImplemented
             eng.call_hook = hook
-            paths = [p for p in eng.summarise(cb, [env, shared.ref_to(st, TASK)], st) if p.end == "return"]
+            first_ty = cb.locals[2]["ty"]
+            item = shared.ref_to(st, TASK)
+            if first_ty.get("k") == "ref" and first_ty["to"].get("k") == "ref":
+                item = shared.ref_to(st, item)       # filter's predicate receives &&RunningInfo
+            paths = [p for p in eng.summarise(cb, [env, item], st) if p.end == "return"]
             eng.call_hook = None
             outs = set()
             for p in paths:
                 r = kernel.deep_strip(p.ret)
                 if r[0] == "adt" and r[2] in ("Some", "None"):
                     outs.add(r[2])
+                elif r[0] == "bool":
+                    outs.add("Some" if r[1] else "None")     # predicate of filter: kept / dropped
                 elif kernel.is_call(r, "bool::then_some"):
                     outs.add("Some" if kernel.strip(r[2][0]) == symx.vbool(True) else ("None" if kernel.strip(r[2][0]) == symx.vbool(False) else "?"))
                 else:
